@@ -215,11 +215,16 @@ func matchJSONValue(v GVal, n jnode) string {
 	case "times":
 		t := v.times()
 		return arr(len(t), func(i int, e jnode) bool { return isStr(e, t[i].Format(time.RFC3339Nano)) })
-	case "group":
+	case "group", "attrsval":
 		if n.Kind != "object" {
 			return bad("group is not an object")
 		}
 		return matchJSONMembers(sortDedupe(v.Items), n.Members, "group")
+	case "groupval": // "k", Group("g", ...): the value of k is an object with one member, the group g
+		if n.Kind != "object" || len(n.Members) != 1 || n.Members[0].Key != fixUTF8(v.S) || n.Members[0].Val.Kind != "object" {
+			return bad("a group given as a value is not an object with one member, the group")
+		}
+		return matchJSONMembers(sortDedupe(v.Items), n.Members[0].Val.Members, "group")
 	}
 	return ""
 }
@@ -399,6 +404,26 @@ func encCorpus(mode string, p EncProfile) []EncRec {
 	return out
 }
 
+// attribute lists and group attributes given as the VALUE of a key ("k", Attrs{...} / "k", Group("g", ...)): JSON only,
+// direct oracle only (in the text formats such a value prints "k=" followed by the dotted members)
+func valueGroupCorpus() []EncRec {
+	var out []EncRec
+	iv := func(k string, i int64) GAttr { return GAttr{Key: k, Val: GVal{Kind: "int", I: i}} }
+	items := []GAttr{iv("y", 2), iv("x", 1), {Key: "s", Val: GVal{Kind: "string", S: "quote\" here"}}}
+	inner := GAttr{Key: "in", Val: GVal{Kind: "group", Items: []GAttr{iv("b", 2), iv("a", 1)}}}
+	for _, caller := range []bool{false, true} {
+		cfg := EncCfg{Mode: "json", Level: 3, TagWidth: 3, MinWidth: 36, Caller: caller}
+		out = append(out,
+			EncRec{cfg, "m", []GAttr{{Key: "k", Val: GVal{Kind: "attrsval", Items: items}}, iv("z", 9)}},
+			EncRec{cfg, "m", []GAttr{iv("a", 0), {Key: "k", Val: GVal{Kind: "groupval", S: "g", Items: items}}, iv("z", 9)}},
+			EncRec{cfg, "m", []GAttr{{Key: "k", Val: GVal{Kind: "groupval", S: "g", Items: nil}}}},
+			EncRec{cfg, "m", []GAttr{{Key: "k", Val: GVal{Kind: "groupval", S: "g\"q", Items: append([]GAttr{inner}, items...)}}, iv("z", 9)}},
+			EncRec{cfg, "m", []GAttr{{Key: "outer", Val: GVal{Kind: "group", Items: []GAttr{{Key: "k", Val: GVal{Kind: "groupval", S: "g", Items: items}}, iv("w", 1)}}}}},
+		)
+	}
+	return out
+}
+
 func stackErrCorpus(mode string) []EncRec {
 	var out []EncRec
 	se := func(t string) GVal { return GVal{Kind: "stackerr", S: t} }
@@ -450,7 +475,11 @@ func runEncoder(r *Run, id, mode, corr string, p EncProfile, oracle func(EncRec,
 	})
 	if mode != "color" {
 		// values outside the model, direct oracle only: errors that carry their stack, with and without the caller field
-		for i, rec := range stackErrCorpus(mode) {
+		direct := stackErrCorpus(mode)
+		if mode == "json" {
+			direct = append(direct, valueGroupCorpus()...)
+		}
+		for i, rec := range direct {
 			payloads := rec.emit()
 			if why := oracle(rec, payloads); why != "" {
 				var so []byte
